@@ -203,6 +203,12 @@ impl<const Q: u64> Suite for Tiny<Q> {
     fn name() -> String {
         format!("tiny{Q}")
     }
+    fn ext_h3(m: &[u8]) -> Vec<u8> {
+        (tiny_hash(Q, "nonce", m) as u16).to_be_bytes().to_vec()
+    }
+    fn ext_hrandomizer(m: &[u8]) -> Vec<u8> {
+        (tiny_hash(Q, "randomizer", m) as u16).to_be_bytes().to_vec()
+    }
     /// z*1 == R + c*PK in Z_Q with c recomputed from bytes.
     fn ext_verify(vk: &[u8], msg: &[u8], sig: &[u8]) -> bool {
         if vk.len() != 2 || sig.len() != 4 {
